@@ -649,6 +649,11 @@ def check_c19(tier, seed, replay):
     return check_translated('C19', tier, seed, replay)
 
 
+@pure('C09')
+def check_c09(tier, seed, replay):
+    return check_translated('C09', tier, seed, replay)
+
+
 def main():
     ap = argparse.ArgumentParser()
     ap.add_argument('prop')
